@@ -22,6 +22,12 @@ CHECKS = {
          "Lean 4 proof (soundness of a static analysis by induction over statements) on translator-generated IR + retained-object call histories", "§3 C13"),
  "C03": ("Lean theorems on facts translated from the module generator as it is now: the rendered dependency.py addresses the pickle exactly where it was saved on POSIX and Windows, from abspath(__file__) (cwd-independent); all four files are written unconditionally and a re-render overwrites each. Backend agreement and reload are tied by rendering every zoo model, importing it in a fresh interpreter from another directory, comparing F/J/HVP/M/p/y/nstep with the in-process sparse and dense models, and repeating after two kinds of re-render. Import machinery / dill / numba cache: runtime, partial",
          "Lean 4 proof over translator-extracted path/IO facts + fresh-interpreter differential runs over render/import/re-render histories", "§3 C03"),
+ "C08": ("PARTIAL. Lean theorems are invariants of the Rodas step-size controller (accept iff err<=1, bounded step-size change, proposals clamped into [hmin,hmax], failures reported); the controller model is tied to the code by exact replay of per-attempt traces. Tolerance-proportional accuracy itself is numerical analysis: sampled on constructed families with reference solutions against bounds calibrated on the unchanged tree (one recorded finding: dense output on stiff forced problems)",
+         "Lean 4 proof of controller invariants + exact trace replay + accuracy sampling against reference solutions (partial)", "§3 C08"),
+ "C09": ("Lean theorems on the Rodas controller model: the end point is assigned (t = tend for every number type), no attempted step exceeds hmax, proposals are clamped, events and rejections never touch the emitted times; the model (accept/reject, step sizes, two-node and dense output bookkeeping) is tied to the code by bit-exact replay of real runs from their per-attempt (err, fac0) traces; the grid clauses are checked directly on Rodas (3 schemes) and ode15s results",
+         "Lean 4 proof on a controller model + bit-exact trace replay (hook) + grid oracle", "§3 C09"),
+ "C10": ("Lean theorems on the event block of the Rodas controller model: bracket invariant of the bisection, direction filter, no-event-no-effect (state identical), terminal event truncates the step at its time; the multi-component full-strength statement is proved FALSE on the model (recorded finding D11). Tied to the code by bit-exact replay of runs with event functions of time; analytic event lists as oracle",
+         "Lean 4 proof + kernel-evaluated counterexample + bit-exact trace replay with scripted event functions + analytic oracle", "§3 C10"),
 }
 REASONS = {}
 props = [json.loads(l)["id"] for l in open(os.path.join(V, "properties.jsonl"))]
